@@ -6,6 +6,8 @@ from .common import TRUSTED, Ctx
 def check(rep):
     ctx = Ctx(rep)
     ctx.shape_options.add("overflow")      # numbers beyond the float range: how they are spelled may need a name the evaluator lacks
+    # first the rule that reads the entry points themselves (both must hand the generator's output on, unchanged)
+    info = PR.rule_one_generator(ctx)
     PR.rule_compiles(ctx, rid="C14.BOTH-LAYOUTS-PARSE", text_only=True)
     PR.rule_layout_names(ctx)
     from . import evalrules as ER
@@ -16,7 +18,6 @@ def check(rep):
     PR.rule_layouts_agree(ctx)
     PR.rule_depth_unbounded(ctx)
     PR.rule_header_imports(ctx)
-    info = PR.rule_one_generator(ctx)
     exps = {k: v.get("expose") for k, v in info.items()}
     rep.check(exps.get("recompile") in ("False", "True") and exps.get("generate_code") not in (None, "False", "True"),
               "C14.ONE-GENERATOR", "utils/wraper_functions.py:generate_code[layout flag]",
